@@ -1,7 +1,10 @@
 import IppModel.Props.C12
+#print axioms Ipp.Props.C12.foldl_last
+#print axioms Ipp.Props.C12.flag_is_last_call
 #print axioms Ipp.Props.C12.matrix
 #print axioms Ipp.Props.C12.plumbing
 #print axioms Ipp.Props.C12.default_verifies
+#print axioms Ipp.Props.C12.opt_out_can_be_revoked
 #print axioms Ipp.Props.C12.bad_certificates_rejected
 #print axioms Ipp.Props.C12.valid_with_root_accepted
 #print axioms Ipp.Props.C12.old_async_rustls_lost_der_root
